@@ -20,7 +20,7 @@ func init() {
 			return evid.Spec{ID: "C06", Level: "model_checking", Exhaustive: true,
 				Rule: "plane 1: every flag octet x every odd sequence number for one (type, minor, session); plane 2: type{1,2,3} x minor{0,1} x 6 session ids x flags{0,1,4,5,0xfe,0xff} x seq{1,3,127,253,255}; " +
 					"each crossed with reply bodies {authentication minimal, RESTART, 300 B, authorization with arguments, accounting, 65536-byte body}; plane 3: multi-packet chains of depth <= 3 " +
-					"(seq s, s+2, s+4 via registered continuations, s in {1,3,249,251,253}) over type x minor x flags{0,1,4,0xff}. Raw reply octets are compared with the model: same version octet, type, flag octet, " +
+					"(seq s, s+2, s+4 via registered continuations, s in {1,3,249,251,253}) over type x minor x flags{0,1,4,0xff}; plane 5: typed replies sweeping every value of their leading octets (accounting server_msg/data lengths 256k+3, k, authorization argument counts 0..255, every authentication status x sizes). Raw reply octets are compared with the model: same version octet, type, flag octet, " +
 					"session id, seq+1 (1 on RESTART), length field == bytes that follow, body == cleartext XOR reference pad iff the request's unencrypted bit was clear, nothing for request 255, never seq 0. " +
 					"states = distinct (request header class, reply kind) model states; transitions = requests executed; traces = chains fully agreed",
 				Assumptions: []string{"handlers are scripted (library flavour); the reference server's own handlers are covered by C07"}}
@@ -52,6 +52,25 @@ func c06Body(kind string) tq.EncoderDecoder {
 	case "max":
 		return rawBody{replyShaped(65536)}
 	}
+	// "acct:<n>" accounting reply with an n-byte server message; "acctd:<n>" with n bytes of data;
+	// "authorargs:<n>" authorization reply with n arguments; "authen:<status>:<n>" authentication reply
+	var n, st int
+	if _, err := fmt.Sscanf(kind, "acct:%d", &n); err == nil {
+		return tq.NewAcctReply(tq.SetAcctReplyStatus(tq.AcctReplyStatusSuccess), tq.SetAcctReplyServerMsg(string(fill('m', n, true))))
+	}
+	if _, err := fmt.Sscanf(kind, "acctd:%d", &n); err == nil {
+		return tq.NewAcctReply(tq.SetAcctReplyStatus(tq.AcctReplyStatusError), tq.SetAcctReplyData(tq.AcctData(fill('d', n, true))))
+	}
+	if _, err := fmt.Sscanf(kind, "authorargs:%d", &n); err == nil {
+		args := make([]string, n)
+		for i := range args {
+			args[i] = "a=" + string(rune('a'+i%26))
+		}
+		return tq.NewAuthorReply(tq.SetAuthorReplyStatus(tq.AuthorStatusPassAdd), tq.SetAuthorReplyArgs(args...))
+	}
+	if _, err := fmt.Sscanf(kind, "authen:%d:%d", &st, &n); err == nil {
+		return tq.NewAuthenReply(tq.SetAuthenReplyStatus(tq.AuthenStatus(st)), tq.SetAuthenReplyServerMsg(string(fill('m', n, false))))
+	}
 	panic(kind)
 }
 
@@ -71,7 +90,7 @@ func c06Chain(c *Ctx, w *lworld, chain []c06Event) {
 	c.R.Eval()
 	c.Cur(chain)
 	for i, e := range chain {
-		act := lAction{Action: ref.Action{Reply: true, Restart: e.Reply == "restart", Next: e.Next}, Body: c06Body(e.Reply)}
+		act := lAction{Action: ref.Action{Reply: true, Restart: e.Reply == "restart" || strings.HasPrefix(e.Reply, "authen:6:"), Next: e.Next}, Body: c06Body(e.Reply)}
 		v := lc.M.Step(e.H, act.Action)
 		r, err := w.deliver(lc, ref.Packet(e.H, w.Key, minimalRequest(e.H.Type)), act)
 		if err != nil {
@@ -153,6 +172,36 @@ func c06Run(c *Ctx) {
 			for _, n := range []int{0, 5, 6, 300, 65536} {
 				for _, lie := range []uint32{0, 1, uint32(n), uint32(n + 1), 65536} {
 					c06Lie(c, w, fl, n, lie)
+				}
+			}
+		}
+	}
+	// plane 5: every value of the leading octets of every typed reply body (status octets, argument counts and both
+	// octets of 16-bit length fields), so that nothing in the reply path can key on body bytes
+	{
+		var kinds []string
+		for k := 0; k < 256; k++ {
+			kinds = append(kinds, fmt.Sprintf("acct:%d", 256*k+3), fmt.Sprintf("acct:%d", k), fmt.Sprintf("acctd:%d", 256*k+1), fmt.Sprintf("authorargs:%d", k))
+		}
+		for st := 1; st <= 7; st++ {
+			for _, n := range []int{0, 6, 256 * 6, 256*6 + 6, 65530} {
+				kinds = append(kinds, fmt.Sprintf("authen:%d:%d", st, n))
+			}
+		}
+		for i, kd := range kinds {
+			job++
+			if !c.Mine(job) {
+				continue
+			}
+			typ := byte(3)
+			if strings.HasPrefix(kd, "authorargs") {
+				typ = 2
+			} else if strings.HasPrefix(kd, "authen:") {
+				typ = 1
+			}
+			for _, seq := range []byte{1, 253, 255} {
+				for _, fl := range []byte{0, 1} {
+					emit([]c06Event{{H: ref.Header{Version: 0xc0, Type: typ, Seq: seq, Flags: fl, Session: uint32(0x50000 + i)}, Reply: kd}})
 				}
 			}
 		}
